@@ -30,12 +30,21 @@ class FV:
         self.fin, self.val, self.tag = fin, val, tag
 
 
-class MetaNd(rnp.ndarray):
-    """object array standing for a float array of dtype `fdtype` ('f8' or 'f4')"""
+class MetaNd(SymNd):
+    """object array standing for a float array of dtype `fdtype` ('f8' or 'f4'); masked assignment a[mask] = v works element-wise
+    on the (finite?, value) samples"""
     fdtype = "f8"
 
     def __array_finalize__(self, obj):
         self.fdtype = getattr(obj, "fdtype", "f8")
+
+    @staticmethod
+    def _ite(c, new, old):
+        if isinstance(new, FV) or isinstance(old, FV):
+            nf, nv = (new.fin, new.val) if isinstance(new, FV) else (SB(z3.BoolVal(True)), new)
+            of, ov = (old.fin, old.val) if isinstance(old, FV) else (SB(z3.BoolVal(True)), old)
+            return FV(ite(c, nf, of), ite(c, nv, ov), getattr(old, "tag", None))
+        return ite(c, new, old)
 
 
 class C13Np(NumpyShim):
